@@ -880,3 +880,8 @@ fn test_rename_all_to_case() {
         );
     }
 }
+
+#[cfg(feature = "verif-hooks")]
+pub(crate) fn verif_rename_all_to_case(original: String, case: &Option<String>) -> String {
+    rename_all_to_case(original, case)
+}
